@@ -70,6 +70,8 @@ enum Ev {
     AuditFail { tid: u32, version: u64, what: String, ev: u64 },
     AuditOk { shape: u64 },
     SeqnoCheck { tid: u32, ev_start: u64, got: Option<u64>, hi: u64, ev: u64 },
+    DropBegin { tid: u32, lo: Vec<u8>, hi: Vec<u8>, ev: u64 },
+    DropEnd { tid: u32, ev: u64 },
     ClearBegin { tid: u32, ev: u64 },
     ClearEnd { tid: u32, ev: u64 },
 }
@@ -175,6 +177,22 @@ pub fn gen_conc(prop: &PropDef, seed: u64, tier: &str) -> RunSpec {
             a.push(Act::Clear);
         }
         threads.push(("clearer".into(), a));
+        // drop_range over ranges the readers do look at: keys outside R and snapshots read
+        // before the call began stay exact, keys inside R are unconstrained for later snapshots
+        if r.chance(2, 3) {
+            let mut sorted = keys.clone();
+            sorted.sort();
+            let mut a = Vec::new();
+            for _ in 0..(1 + r.usize(3)) * scale {
+                for _ in 0..2 + r.usize(10) {
+                    a.push(Act::Pause);
+                }
+                let i = r.usize(sorted.len());
+                let j = (i + r.usize(1 + sorted.len() / 2)).min(sorted.len() - 1);
+                a.push(Act::DropRange { lo: sorted[i].clone(), hi: sorted[j].clone() });
+            }
+            threads.push(("dropper".into(), a));
+        }
     }
     // compactors
     for _ in 0..if with_compactors { 1 + r.usize(3) } else { 0 } {
@@ -546,9 +564,11 @@ fn thread_body(
             }
             Act::DropRange { lo, hi } => {
                 shared.push(Ev::MaintBegin { tid, what: "drop_range", ev: shared.next_ev() });
+                shared.push(Ev::DropBegin { tid, lo: lo.0.clone(), hi: hi.0.clone(), ev: shared.next_ev() });
                 if let Err(e) = tree.drop_range::<Vec<u8>, _>(lo.0.clone()..=hi.0.clone()) {
                     shared.push(Ev::Error { tid, what: format!("drop_range returned Err({e:?})"), ev: shared.next_ev() });
                 }
+                shared.push(Ev::DropEnd { tid, ev: shared.next_ev() });
                 shared.push(Ev::MaintEnd { tid, ev: shared.next_ev() });
             }
         }
@@ -777,8 +797,16 @@ pub fn run_conc(prop: &PropDef, spec: &RunSpec, workdir: &Path, index: u64) -> R
     let mut maint: Vec<(u64, Option<u64>, u32)> = Vec::new();
     let mut ingests = 0u64;
     let mut clears: Vec<(u64, Option<u64>)> = Vec::new();
+    // drop_range calls over live ranges: (begin event, lo, hi), bounds inclusive
+    let mut drops: Vec<(u64, Vec<u8>, Vec<u8>, u32, Option<u64>)> = Vec::new();
     for e in &log {
         match e {
+            Ev::DropBegin { tid, lo, hi, ev } => drops.push((*ev, lo.clone(), hi.clone(), *tid, None)),
+            Ev::DropEnd { tid, ev } => {
+                if let Some(d) = drops.iter_mut().rev().find(|d| d.3 == *tid && d.4.is_none()) {
+                    d.4 = Some(*ev);
+                }
+            }
             Ev::ClearBegin { ev, .. } => clears.push((*ev, None)),
             Ev::ClearEnd { ev, .. } => {
                 if let Some(c) = clears.last_mut() {
@@ -806,6 +834,21 @@ pub fn run_conc(prop: &PropDef, spec: &RunSpec, workdir: &Path, index: u64) -> R
             _ => {}
         }
     }
+    // a key inside the range of a drop_range that had begun when the snapshot was read: the
+    // property demands nothing (C15: only keys outside R and earlier snapshots are constrained)
+    let unconstrained = |key: &[u8], e_s: u64| -> bool {
+        drops
+            .iter()
+            .any(|(b, lo, hi, _, _)| *b < e_s && lo.as_slice() <= key && key <= hi.as_slice())
+    };
+    // ... and while the call is still running the answer for such a key may also change
+    let drop_in_flight = |key: Option<&[u8]>, e_s: u64| -> bool {
+        drops.iter().any(|(b, lo, hi, _, end)| {
+            *b < e_s
+                && !end.is_some_and(|e| e < e_s)
+                && key.map_or(true, |k| lo.as_slice() <= k && k <= hi.as_slice())
+        })
+    };
     let mut overlapping = 0u64;
     for (i, a) in maint.iter().enumerate() {
         for b in maint.iter().skip(i + 1) {
@@ -894,6 +937,10 @@ pub fn run_conc(prop: &PropDef, spec: &RunSpec, workdir: &Path, index: u64) -> R
                 }
                 Ev::Read { tid, s, e_s, key, got, ev } => {
                     let e_s = *e_s;
+                    if unconstrained(key, e_s) {
+                        stats.inc("conc_reads_inside_dropped_range");
+                        continue;
+                    }
                     let acc = acceptable(&writes, &clears, key, *s, e_s);
                     reads_checked += 1;
                     if acc.len() > 1 {
@@ -937,7 +984,7 @@ pub fn run_conc(prop: &PropDef, spec: &RunSpec, workdir: &Path, index: u64) -> R
                     let mut all_keys: BTreeSet<Vec<u8>> = spec.keys.iter().map(|k| k.0.clone()).collect();
                     all_keys.extend(got.iter().map(|(k, _)| k.clone()));
                     for k in &all_keys {
-                        if k.starts_with(b"~drop-") {
+                        if k.starts_with(b"~drop-") || unconstrained(k, e_s) {
                             continue;
                         }
                         let acc = acceptable(&writes, &clears, k, *s, e_s);
@@ -971,7 +1018,9 @@ pub fn run_conc(prop: &PropDef, spec: &RunSpec, workdir: &Path, index: u64) -> R
                 Ev::Read { tid, s, e_s, key, got, ev } => {
                     // a snapshot that covers a write which had not returned when the snapshot
                     // was read is not one "the writer has already published" for that key
-                    if acceptable(&writes, &clears, key, *s, *e_s).len() > 1 {
+                    if drop_in_flight(Some(key), *e_s)
+                        || acceptable(&writes, &clears, key, *s, *e_s).len() > 1
+                    {
                         continue;
                     }
                     match seen.get(&(*tid, *e_s, key.clone())) {
@@ -1004,7 +1053,8 @@ pub fn run_conc(prop: &PropDef, spec: &RunSpec, workdir: &Path, index: u64) -> R
                             .any(|w| w.0 < *s && !w.3.is_some_and(|e| e < *e_s))
                             || clears
                                 .iter()
-                                .any(|c| c.0 < *e_s && !c.1.is_some_and(|ce| ce < *e_s));
+                                .any(|c| c.0 < *e_s && !c.1.is_some_and(|ce| ce < *e_s))
+                            || drop_in_flight(None, *e_s);
                         if first != got && !inflight {
                             outcome = fail(
                                 "snapshot",
@@ -1073,11 +1123,15 @@ pub fn run_conc(prop: &PropDef, spec: &RunSpec, workdir: &Path, index: u64) -> R
                 msg: format!("scan at quiescence failed: {e}"),
                 at_op: 0,
             })?;
-            if !clears.is_empty() {
-                // with clear() in the run some writes may legitimately have gone either way
+            if !clears.is_empty() || !drops.is_empty() {
+                // with clear() in the run some writes may legitimately have gone either way;
+                // keys inside a dropped range are unconstrained
                 let mut all_keys: BTreeSet<Vec<u8>> = spec.keys.iter().map(|k| k.0.clone()).collect();
                 all_keys.extend(got.keys().cloned());
                 for k in &all_keys {
+                    if unconstrained(k, u64::MAX) {
+                        continue;
+                    }
                     let acc = acceptable(&writes, &clears, k, u64::MAX, u64::MAX);
                     let g = got.get(k).map(|x| x.0.clone());
                     if !acc.contains(&g) {
